@@ -58,3 +58,49 @@ func debugGuards(c *Ctx) {
 		}
 	}
 }
+
+// debugReach prints one call path from the roots to the named function (TONGO_DEBUG_REACH=pkg:Name).
+func debugReach(c *Ctx, roots []*ssa.Function) {
+	spec := os.Getenv("TONGO_DEBUG_REACH")
+	if spec == "" {
+		return
+	}
+	i := 0
+	for i < len(spec) && spec[i] != ':' {
+		i++
+	}
+	target := c.fn(spec[:i], spec[i+1:])
+	cg := c.CG()
+	prev := map[*ssa.Function]*ssa.Function{}
+	var work []*ssa.Function
+	for _, r := range roots {
+		prev[r] = r
+		work = append(work, r)
+	}
+	for len(work) > 0 {
+		f := work[0]
+		work = work[1:]
+		if origin(f) == target {
+			for g := f; ; g = prev[g] {
+				fmt.Println("  <-", fnName(g))
+				if prev[g] == g {
+					return
+				}
+			}
+		}
+		var outs []*ssa.Function
+		outs = append(outs, f.AnonFuncs...)
+		if n := cg.Nodes[f]; n != nil {
+			for _, e := range n.Out {
+				outs = append(outs, e.Callee.Func)
+			}
+		}
+		for _, g := range outs {
+			if _, ok := prev[g]; !ok && inModule(g) {
+				prev[g] = f
+				work = append(work, g)
+			}
+		}
+	}
+	fmt.Println("not reachable")
+}
